@@ -35,9 +35,9 @@ type nfEntry struct {
 }
 
 type c10State struct {
-	model   []map[string]*nfEntry // per replica: key -> entry
-	bcasts  int
-	wire    [][]byte
+	model  []map[string]*nfEntry // per replica: key -> entry
+	bcasts int
+	wire   [][]byte
 }
 
 func c10st(w *World) *c10State {
@@ -499,10 +499,10 @@ func c10Gen(seed uint64, tier string) *Plan {
 func init() {
 	Register(&Prop{
 		ID: "C10", Level: "exploration", Gen: c10Gen,
-		Check: func(p *Plan, r *RunResult) *Verdict { return &Verdict{} },
-		Rule: "seeded run on 1-3 real instances (clustering off, nflog broadcast recorded): 1-4 keys (2 groups x 2 integrations) with 2-7 crafted entries each (distinct timestamps, some stamped minutes in the future, expiry at a per-key distance so that some are expired on arrival, int/float/string receiver data) delivered 0-3 times per replica in independent orders, singly or batched; 0-5 local Log calls per key with expiry 0/2 min/20 min/4 h against retention 5 min/15 min/2 h; explicit and maintenance GC, queries, mid-run and final all-pairs full-state exchanges, optional graceful restart (snapshot reload). After every operation Log.Query of every key is compared with a reference log. Non-trivial: a query was compared; distinct by abstract trace plus operation mix.",
-		Real: []string{"app.New wiring (clustering off)", "nflog.Log (Log, Merge, GC, Query, MarshalBinary, Maintenance, snapshot load)"},
-		Stub: []string{"clock (synctest)", "gossip (crafted protobuf handed to Merge; full-state exchange by MarshalBinary+Merge)", "snapshot disk (simfs)"},
+		Check:       func(p *Plan, r *RunResult) *Verdict { return &Verdict{} },
+		Rule:        "seeded run on 1-3 real instances (clustering off, nflog broadcast recorded): 1-4 keys (2 groups x 2 integrations) with 2-7 crafted entries each (distinct timestamps, some stamped minutes in the future, expiry at a per-key distance so that some are expired on arrival, int/float/string receiver data) delivered 0-3 times per replica in independent orders, singly or batched; 0-5 local Log calls per key with expiry 0/2 min/20 min/4 h against retention 5 min/15 min/2 h; explicit and maintenance GC, queries, mid-run and final all-pairs full-state exchanges, optional graceful restart (snapshot reload). After every operation Log.Query of every key is compared with a reference log. Non-trivial: a query was compared; distinct by abstract trace plus operation mix.",
+		Real:        []string{"app.New wiring (clustering off)", "nflog.Log (Log, Merge, GC, Query, MarshalBinary, Maintenance, snapshot load)"},
+		Stub:        []string{"clock (synctest)", "gossip (crafted protobuf handed to Merge; full-state exchange by MarshalBinary+Merge)", "snapshot disk (simfs)"},
 		Assumptions: []string{"crafted entries of one key expire in timestamp order", "an expired entry that has not been garbage collected yet may or may not be returned by Query", "two writes of one key at the same instant are not generated"},
 	})
 }
